@@ -17,7 +17,7 @@ import numpy as np
 import xdeps
 from xdeps.optimize.optimize import Optimize, Vary, Target, Action
 
-FAM = {"linear": lambda z: z, "quad": lambda z: z * z + z, "trig": np.sin, "atan": np.arctan}
+FAM = {"linear": lambda z: z, "quad": lambda z: z * z + z, "trig": np.sin, "atan": np.arctan, "exp": np.exp}
 
 class LogDict(dict):
     """container recording every store (knob write trace)"""
@@ -45,7 +45,9 @@ def build(prob, **optkw):
     nk, nt = len(prob["k0"]), len(prob["val"])
     vary = [Vary("k%d" % i, d, limits=prob["lim"][i], weight=prob["w"][i], max_step=prob["ms"][i], step=prob["step"],
                  active=prob["kact"][i]) for i in range(nk)]
-    targets = [act.target((lambda i: (lambda res: res["y"][i]))(i), prob["val"][i], tol=prob["tol"][i], weight=prob["tw"][i])
+    olog = prob.get("olog") or [False] * nt          # optimize_log targets (positive observed and target values: family 'exp')
+    targets = [act.target((lambda i: (lambda res: res["y"][i]))(i), prob["val"][i], tol=prob["tol"][i], weight=prob["tw"][i],
+                          **({"optimize_log": True} if olog[i] else {}))
                for i in range(nt)]
     opt = Optimize(vary=vary, targets=targets, show_call_counter=False, **optkw)
     for i in range(nt):
